@@ -27,6 +27,7 @@ class Unit:
         self.trusted = []                   # free-text trusted assumptions (assume_specification ...)
         self.auto_stubs = []
         self.lost_hints = {}               # emitted fn name -> [anchors] of proof hints that could not be placed
+        self.lost_fns = {}                 # emitted fn name -> reason: body edited beyond its rewrite anchors, emitted as a contract stub
         self.axioms = []                    # lemma names used as axioms here (proved in the unit that owns them)
         self.rlimit = 60
         self.extra_args = []
@@ -59,10 +60,17 @@ class Unit:
         if extra_requires:
             req = (req + ', ' if req else '') + extra_requires
         del xtract.LOST_HINTS[:]
-        txt = emit_fn(sig, body, requires=req,
-                      ensures=ensures if ensures is not None else c.get('ensures', ''),
-                      hints=hints, hints_all=hints_all, loops=loops, rename=rename, subst=subst, attrs=attrs,
-                      decreases=decreases or c.get('decreases', ''), replace_sig=replace_sig, no_unwind=no_unwind)
+        try:
+            txt = emit_fn(sig, body, requires=req,
+                          ensures=ensures if ensures is not None else c.get('ensures', ''),
+                          hints=hints, hints_all=hints_all, loops=loops, rename=rename, subst=subst, attrs=attrs,
+                          decreases=decreases or c.get('decreases', ''), replace_sig=replace_sig, no_unwind=no_unwind)
+        except xtract.AnchorLost as e:
+            # the body was edited beyond what the rewrite rules of THIS function can follow: it is emitted as a contract stub so the rest of
+            # the unit is still decided; the function itself is reported as undecided (the twin has to produce an input)
+            self.lost_fns[rename or name] = str(e)
+            txt = emit_fn(sig, body, requires=req, ensures=ensures if ensures is not None else c.get('ensures', ''), rename=rename, stub=True,
+                          replace_sig=replace_sig)
         if xtract.LOST_HINTS:
             self.lost_hints[rename or name] = list(xtract.LOST_HINTS)
         self.chunks.append(txt)
